@@ -218,6 +218,8 @@ class Program:
                 return r[1]
             if r and r[0] == "extern":
                 return "ext:" + r[1]
+            if r is None:
+                return "ext:" + e.id   # builtin (Exception, ValueError, object ...)
             return None
         if isinstance(e, ast.Attribute):
             return "ext:" + ast.unparse(e)
